@@ -1239,8 +1239,7 @@ def _add_tempo_if_unique(position, part, tempo):
 def _handle_sound(e, position, part):
     if "tempo" in e.attrib:
         tempo = score.Tempo(int(e.attrib["tempo"]), "q")
-        # part.add_starting_object(position, tempo)
-        (position, part, tempo)
+        _add_tempo_if_unique(position, part, tempo)
 
 
 def _handle_note(e, position, part, ongoing, prev_note, doc_order, prev_beam=None):
